@@ -80,11 +80,13 @@ class Case:
         return Case(cligen.pkg_from_json(j["pkg"]), j["cmd"], j["args"], j.get("from_parent"), j.get("tag", ""))
 
 
-def extra_flags(rng, cmd):
-    """flags that do not take part in selection/naming but are part of the command line"""
+def extra_flags(rng, cmd, heavy=False):
+    """flags that do not take part in selection/naming but are part of the command line
+    (heavy: the package imports net/http; `new -getset` reloads the package after every type, ~2 s each there)"""
     if cmd == "new":
-        return rng.choice([[], [], [], ["-getset"], ["-json"], ["-exp"], ["-short"], ["-getset", "-json"],
-                           ["-tagcase=lower"], ["-tagcase", "upper"]])
+        fl = rng.choice([[], [], [], ["-getset"], ["-json"], ["-exp"], ["-short"], ["-getset", "-json"],
+                         ["-tagcase=lower"], ["-tagcase", "upper"]])
+        return [x for x in fl if not (heavy and x == "-getset")]
     if cmd == "enum":
         return rng.choice([[], [], [], ["-json"], ["-text"], ["-bit"], ["-sql", "-gorm"]])
     if cmd == "map":
@@ -126,7 +128,8 @@ def decl_file_of(p, name):
 def gen_cmdlines(rng, cmd, p):
     """-> list of (args, generate_line_plan, tag); args = what follows the subcommand"""
     res = []
-    xf = lambda: extra_flags(rng, cmd)
+    heavy = any(t.rhs == "iface_rest" for _, t in p.all_specs())
+    xf = lambda: extra_flags(rng, cmd, heavy)
 
     # --- -type=A,B
     for _ in range(rng.choice([1, 2])):
@@ -225,14 +228,16 @@ def gen_cases(run, nskel):
 
 
 # ---------------------------------------------------------------- execution
-def run_case(shoot, k):
+def run_case(shoot, k, timeout=60):
     """write the package, run shoot, observe"""
     base = k.dir
+    if base.exists():
+        shutil.rmtree(base)
     files = cligen.render_go(k.pkg)
     l2.write_files(base, files)
     before = l2.snapshot(base)
     cwd = base if k.from_parent else base / "p"
-    r = l2.run_shoot(shoot, cwd, k.argv(), timeout=30)
+    r = l2.run_shoot(shoot, cwd, k.argv(), timeout=timeout)
     after = l2.snapshot(base)
     created = sorted(n for n in after if n not in before)
     modified = sorted(n for n in after if n in before and after[n] != before[n])
@@ -292,14 +297,47 @@ def sig_files(gosig, cases):
             k.obs["files"][n] = types
 
 
-def execute(run, shoot, gosig, cases, tag="c"):
+def execute(run, shoot, gosig, cases, tag="c", par=PAR, timeout=60):
     root = l2.make_module(run, "vmod_" + tag)
     for i, k in enumerate(cases):
         k.dir = root / ("%s%05d" % (tag, i))
-    with cf.ThreadPoolExecutor(max_workers=PAR) as ex:
-        list(ex.map(lambda k: run_case(shoot, k), cases))
+    with cf.ThreadPoolExecutor(max_workers=par) as ex:
+        list(ex.map(lambda k: run_case(shoot, k, timeout), cases))
     sig_files(gosig, cases)
     return root
+
+
+def confirm(run, shoot, gosig, cases, mism, classes):
+    """a mismatch must persist when the case is run again alone (a loaded machine can hit the timeout):
+    re-run the mismatching cases one at a time with a long timeout and compare again"""
+    if not mism:
+        return []
+    idxs = [i for i, _ in mism[:40]]
+    sub = [cases[i] for i in idxs]
+    execute(run, shoot, gosig, sub, tag="re", par=1, timeout=300)
+    m2, _ = coq_shards(run, sub, "c16re")
+    return [(idxs[j], v) for j, v in m2]
+
+
+def validate_render(run, cases, n):
+    """the rendered skeletons must be compilable Go packages (otherwise go/types facts such as
+    `integer underlying type` would not be what the skeleton claims): go build a sample"""
+    root = l2.make_module(run, "vmod_build")
+    seen, k = set(), 0
+    for c in cases[::max(1, len(cases) // (n + 1))]:
+        key = json.dumps(cligen.pkg_to_json(c.pkg), sort_keys=True)
+        if key in seen:
+            continue
+        seen.add(key)
+        l2.write_files(root / ("b%05d" % k), cligen.render_go(c.pkg))
+        k += 1
+        if k >= n:
+            break
+    ok, errs = l2.go_build(root)
+    if not ok:
+        raise lib.CheckBroken("a rendered skeleton package does not compile (generator defect): %s"
+                              % json.dumps(errs)[:3000])
+    return k
 
 
 # -------------------------------------------------------------- Coq rendering
@@ -539,17 +577,23 @@ def main(run):
     measured = run.replay_findings(handlers(run, shoot, gosig))
     run.log("findings:", measured)
 
-    nskel = 700 if run.thorough() else 58
+    nskel = 500 if run.thorough() else 50
     cases = gen_cases(run, nskel)
     # corpus of past failures first
     corpus = sorted((lib.VERIF / "corpus" / "C16").glob("*.json")) if (lib.VERIF / "corpus" / "C16").exists() else []
     ccases = [Case.from_json(json.loads(pth.read_text())["case"]) for pth in corpus]
     cases = ccases + cases
     run.log("cases: %d (skeletons %d, corpus %d)" % (len(cases), nskel, len(ccases)))
+    nbuilt = validate_render(run, cases, 400 if run.thorough() else 40)
+    run.log("rendered skeletons compiled:", nbuilt)
     execute(run, shoot, gosig, cases)
     run.log("shoot runs done")
     mism, classes = coq_shards(run, cases, "c16cases")
     run.log("coq done: %d mismatches" % len(mism))
+    first_pass = len(mism)
+    mism = confirm(run, shoot, gosig, cases, mism, classes)
+    if first_pass:
+        run.log("re-run alone: %d of %d mismatches persist" % (len(mism), min(first_pass, 40)))
     nrep, tolerated = report(run, cases, mism, classes, measured, "c16")
     if not proof_ok and nrep == 0:
         run.proof_failure_violation()
@@ -601,6 +645,7 @@ def main(run):
         "exhaustive": False,
         "traces_validated_against_impl": len(cases),
         "programs": len(cases),
+        "rendered_skeletons_compiled_with_go_build": nbuilt,
         "files_written_by_shoot": written,
         "cases_by_subcommand": by_cmd, "cases_by_mode": by_tag,
         "cases_by_input_class": {"legend": "0 inside the theorems' guard; 1 K_enum_missing_silent; 2 K_star_no_generate_line; "
@@ -611,6 +656,7 @@ def main(run):
         "dir_argument_cases": sum(1 for k in cases if k.from_parent),
         "findings_measured": measured,
         "repaired_class_cases_tolerated": tolerated,
+        "mismatches_not_reproduced_when_run_alone": min(first_pass, 40) - len(mism),
         "samples": picks[:3] or [sample(cases[0])],
         "trusted_base": lib.TRUSTED_BASE_COMMON + [
             "a package is abstracted to a skeleton (Model/Cli.v pkg): per file the type specs with the facts the "
